@@ -68,7 +68,7 @@ def cell_walk(world, gen_):
 
 
 def run_shard(acc, prop, tier, seed, shard, nshards, **kw):
-    _w.shard(acc, PROP, tier, seed, shard, nshards, factory, WEIGHTS, (12, (120, 220)), (500, (120, 300)), CORR,
+    _w.shard(acc, PROP, tier, seed, shard, nshards, factory, WEIGHTS, (12, (120, 220)), (300, (120, 300)), CORR,
              post_hook=cell_walk, post_every=(3, 2))
 
 
